@@ -363,3 +363,70 @@ def signext(ctx):
     # the idiom may be replaced by another way of decoding (struct, int.from_bytes(signed=True)): no floor
     obs.append(Ob('SA-DATE.signext', 'sign extensions by test-and-subtract examined', True, '', '%d' % n))
     return obs
+
+
+@rule('SA-DATE.width')
+@props('C19')
+def date_width(ctx):
+    """The 17-byte date of a volume descriptor is assembled from pieces of fixed width: 14 digits from strftime, two
+    digits of hundredths, one byte of offset.  `struct.pack('17s')` cuts a longer string silently - and the byte it cuts
+    is the offset from GMT, so the recorded time is read in another zone.  Every piece formatted with a minimum width
+    (`'{:02d}'`, `'{:0<2}'`, `'%02d'`) therefore needs a value that provably fits: a constant, an attribute assigned a
+    constant in the same branch, `x % 10**w`, or `min(x, 10**w - 1)`.  A value like `int(round(frac * 100))` reaches
+    100 for the last half hundredth of every second."""
+    import re
+    fi = ctx.func('dates.VolumeDescriptorDate.new')
+    obs = []
+    n = 0
+    for st in ctx.own_nodes(fi):
+        if not (isinstance(st, ast.Assign) and any(isinstance(t, ast.Attribute) and t.attr == 'date_str' for t in st.targets)):
+            continue
+        for c in ast.walk(st.value):
+            fmt, val = None, None
+            if isinstance(c, ast.Call) and isinstance(c.func, ast.Attribute) and c.func.attr == 'format' and isinstance(c.func.value, ast.Constant) and \
+                    isinstance(c.func.value.value, str) and len(c.args) == 1:
+                fmt, val = c.func.value.value, c.args[0]
+                m = re.fullmatch(r'\{:0?[<>]?(\d+)d?\}', fmt)
+            elif isinstance(c, ast.BinOp) and isinstance(c.op, ast.Mod) and isinstance(c.left, ast.Constant) and isinstance(c.left.value, str):
+                fmt, val = c.left.value, c.right
+                m = re.fullmatch(r'%0?(\d+)d', fmt)
+            else:
+                continue
+            if not m:
+                continue
+            w = int(m.group(1))
+            n += 1
+            ok = _fits(ctx, fi, val, st, w)
+            obs.append(Ob('SA-DATE.width', '%s|%s formatted as %r' % (fi.qual, norm(val), fmt), ok, ctx.loc(fi, c),
+                          '' if ok else '`%s` is formatted with a minimum width of %d but is not known to stay below %d: one character more makes the date 18 bytes, and the '
+                          '17-byte field drops the last one - the offset from GMT' % (norm(val), w, 10 ** w)))
+    if n < 1:
+        raise AnalysisError('anchor-vanished: formatted pieces of VolumeDescriptorDate.date_str')
+    return obs
+
+
+def _fits(ctx, fi, val, st, w):
+    def const_ok(e):
+        return isinstance(e, ast.Constant) and isinstance(e.value, int) and 0 <= e.value < 10 ** w
+    if const_ok(val):
+        return True
+    if isinstance(val, ast.BinOp) and isinstance(val.op, ast.Mod) and isinstance(val.right, ast.Constant) and isinstance(val.right.value, int) and 0 < val.right.value <= 10 ** w:
+        return True
+    if isinstance(val, ast.Call) and isinstance(val.func, ast.Name) and val.func.id == 'min' and any(const_ok(a) for a in val.args):
+        return True
+    if isinstance(val, ast.Attribute) and isinstance(val.value, ast.Name) and val.value.id == 'self':
+        # the nearest assignment of that attribute before st in the same block
+        par = ctx.parents(fi)
+        p = par.get(id(st))
+        for fld in ('body', 'orelse'):
+            b = getattr(p, fld, None)
+            if isinstance(b, list) and any(x is st for x in b):
+                prev = None
+                for x in b:
+                    if x is st:
+                        break
+                    if isinstance(x, ast.Assign) and any(isinstance(t, ast.Attribute) and t.attr == val.attr for t in x.targets):
+                        prev = x
+                if prev is not None:
+                    return _fits(ctx, fi, prev.value, prev, w)
+    return False
